@@ -15,7 +15,7 @@ class UnownedRandomness(RuntimeError):
     pass
 
 
-BULK = 64  # draws larger than this are answered by constant arrays (one choice over the support)
+BULK = 8  # draws larger than this are answered by constant arrays (one choice over the support); enumerating sequences is only feasible for a few draws
 
 
 class _RvProxy:
